@@ -833,6 +833,8 @@ def make_cold_request(w, op, extra_nodes=()):
     defs = []
     if op["k"] == "usys_get" and op.get("name") in BUILTIN_SYSTEMS:
         need.add(0)  # the built-in systems hand out units of the default registry
+    if op.get("form") == "quantity_default":
+        need.add(0)  # the defining quantity lives in the default registry, whose contents a run may have extended
     for key in ("name", "sys"):
         d = usys_def(w, op[key]) if isinstance(op.get(key), str) else None
         if d is not None and op["k"] != "mkusys":
